@@ -382,6 +382,11 @@ Definition arange_len (start stop p q : Z) : outcome Z :=
        if (num * p <=? 0) then Val 0 else Val (ceil_div num p).
 (* element i, as a numerator over q *)
 Definition arange_elem (start p q i : Z) : Z := start * q + i * p.
+(* element i as view::arange_t::operator() computes it: start + index * step with index of type size_t.  For an INTEGER
+   step (q = 1) the product is taken in size_t (wrap 64): added to an integer start and converted to an integer element type
+   the wrap cancels (mod 2^64); converted to a FLOATING element type it does not (a negative step gives ~1.8e19) *)
+Definition arange_elem_cxx (float_dtype : bool) (start p q i : Z) : Z :=
+  if (q =? 1) && float_dtype then start + wrap 64 (i * p) else arange_elem start p q i.
 (* linspace (view/linspace.hpp): step = (stop-start)/(endpoint ? num-1 : num); element 0 = start, element i = start + i*step,
    as the pair (numerator, denominator); denominator 0 = division by zero (inf/nan in float) *)
 Definition linspace_elem (start stop num : Z) (endpoint : bool) (i : Z) : Z * Z :=
@@ -552,3 +557,50 @@ Definition np_tri_source (s i : list Z) : list Z := match s with [_] => [znth i 
 Definition np_arange_len (start stop p q : Z) : Z := Z.max 0 (ceil_div ((stop - start) * q) p).
 Definition np_linspace_elem (start stop num : Z) (endpoint : bool) (i : Z) : Z * Z :=
   if num =? 1 then (start, 1) else let dv := if endpoint then num - 1 else num in (start * dv + i * (stop - start), dv).
+
+(* ========================================================================================== *)
+(* ELEMENT TYPES of the joining views (concatenate, stack family, where): every result element is the source element
+   converted to the element type of the view.  Values are exact dyadic rationals written as numerators over 4. *)
+Inductive dtype := I8 | I32 | I64 | F32 | F64.
+Definition is_float (d : dtype) : bool := match d with F32 | F64 => true | _ => false end.
+Definition width (d : dtype) : Z := match d with I8 => 8 | I32 => 32 | I64 => 64 | F32 => 32 | F64 => 64 end.
+(* MODEL  meta::common_type (meta/bits/transform/common_type.hpp): an integer with a floating type gives the floating type
+   whatever the widths; otherwise the wider type, the right one on a tie *)
+Definition cxx_common (a b : dtype) : dtype :=
+  match is_float a, is_float b with
+  | false, true => b
+  | true, false => a
+  | _, _ => if width b <? width a then a else b
+  end.
+(* SPEC  numpy.result_type on these five types *)
+Definition np_common (a b : dtype) : dtype :=
+  match a, b with
+  | F64, _ | _, F64 => F64
+  | F32, F32 | F32, I8 | I8, F32 => F32
+  | F32, _ | _, F32 => F64
+  | I64, _ | _, I64 => I64
+  | I32, _ | _, I32 => I32
+  | I8, I8 => I8
+  end.
+(* round to nearest, ties to even, p significant bits (exact on numerators: the denominator 4 is a power of two) *)
+Definition round_sig (p n : Z) : Z :=
+  let k := Z.log2 (Z.abs n) + 1 - p in
+  if k <=? 0 then n else
+  let u := 2 ^ k in let q := n / u in let r := n mod u in
+  if r * 2 <? u then q * u else if u <? r * 2 then (q + 1) * u else (if Z.even q then q * u else (q + 1) * u).
+(* conversion of a value (numerator over 4) to an element type: C++ truncates towards zero for integer targets *)
+Definition conv (d : dtype) (n : Z) : Z :=
+  match d with
+  | F64 => round_sig 53 n
+  | F32 => round_sig 24 n
+  | I8 => swrap 8 (Z.quot n 4) * 4
+  | I32 => swrap 32 (Z.quot n 4) * 4
+  | I64 => swrap 64 (Z.quot n 4) * 4
+  end.
+(* n is a value of type d *)
+Definition value_in (d : dtype) (n : Z) : Prop :=
+  match d with
+  | F64 => round_sig 53 n = n
+  | F32 => round_sig 24 n = n
+  | _ => n mod 4 = 0 /\ - 2 ^ (width d - 1) <= n / 4 < 2 ^ (width d - 1)
+  end.
